@@ -1410,6 +1410,303 @@ def gen_HW(seed, thorough):
 
 
 # =================================================================================================
+# write - EDIT IN PLACE - write : whatever a writer derives from an object (type tokens, labels, names,
+# end points) must follow the object's CURRENT state, not the state at the first write
+# =================================================================================================
+def fresh_token(z, t, g):
+    return Atom(Element(z), atype=AtomType(t), geom=AtomGeom(g)).get_mol2_type()
+
+
+def class_representatives():
+    """up to 3 typings (different elements) per token CLASS emitted by the tree under test (measured)"""
+    reps: dict = {}
+    for z, t, g in all_triples():
+        try:
+            tok = fresh_token(z, t, g)
+        except Exception:
+            continue
+        lst = reps.setdefault(tokclass(tok), [])
+        if len(lst) < 3 and all(z != r[0] for r in lst) and z != 0:
+            lst.append((z, t, g))
+    return [tr for cl in sorted(reps) for tr in reps[cl]]
+
+
+def check_retype(ctx, tr1, tr2, via):
+    """one atom object: typed once (state tr1), edited in place to tr2, typed again"""
+    case = {"layer": "TA2", "t1": list(tr1), "t2": list(tr2), "via": via}
+    ctx.count(evaluations=1, states=1, traces=1)
+    (z1, t1, g1), (z2, t2, g2) = tr1, tr2
+    try:
+        a = Atom(Element(z1), atype=AtomType(t1), geom=AtomGeom(g1))
+        ctx.count(transitions=1)
+        tok1 = a.get_mol2_type()
+        if via == "fields":
+            a.element, a.atype, a.geom = Element(z2), AtomType(t2), AtomGeom(g2)
+        else:
+            a.set_mol2_type(fresh_token(z2, t2, g2))
+        ctx.count(transitions=2)
+        got = a.get_mol2_type()
+        want = fresh_token(int(a.element), int(a.atype), int(a.geom))  # a fresh atom with the same CURRENT fields
+    except Exception as e:
+        ctx.violation(f"typing-after-edit|{via}|raised-{exc(e)}", f"{exc(e)}: {e}", case)
+        return
+    if tr1 != tr2:
+        ctx.nontrivial(("TA2", tr1, tr2, via))
+    ctx.outcome(("TA2", tokclass(tok1), tokclass(got)))
+    if got != want:
+        stale = got == tok1
+        ctx.violation(
+            f"typing-after-edit|{via}|" + ("token-of-the-state-at-the-first-call" if stale else "token-differs-from-a-fresh-atom-with-the-same-fields"),
+            f"atom typed as {tok1!r}, then edited in place ({via}) to {Element(int(a.element)).name}/{AtomType(int(a.atype)).name}/{AtomGeom(int(a.geom)).name}: get_mol2_type() gives {got!r}, a fresh atom with these fields gives {want!r}",
+            case,
+            repro=(
+                "from molli.chem import Atom, Element, AtomType, AtomGeom\n"
+                f"a = Atom(Element({z1}), atype=AtomType({t1}), geom=AtomGeom({g1})); print(a.get_mol2_type())\n"
+                + (f"a.element, a.atype, a.geom = Element({z2}), AtomType({t2}), AtomGeom({g2})\n" if via == "fields" else f"a.set_mol2_type({fresh_token(z2, t2, g2)!r})\n")
+                + "print(a.get_mol2_type(), 'expected', Atom(a.element, atype=a.atype, geom=a.geom).get_mol2_type())"
+            ),
+        )
+
+
+def check_bond_retype(ctx, b1, b2, via):
+    case = {"layer": "BL2", "b1": b1, "b2": b2, "via": via}
+    ctx.count(evaluations=1, states=1, traces=1)
+    try:
+        b = Bond(Atom("C"), Atom("N"), btype=BondType(b1))
+        ctx.count(transitions=3)
+        tok1 = b.get_mol2_type()
+        if via == "btype":
+            b.btype = BondType(b2)
+        else:
+            b.set_mol2_type(Bond(Atom("C"), Atom("N"), btype=BondType(b2)).get_mol2_type())
+        got = b.get_mol2_type()
+        want = Bond(Atom("C"), Atom("N"), btype=BondType(b.btype)).get_mol2_type()
+    except Exception as e:
+        ctx.violation(f"bond-typing-after-edit|{via}|raised-{exc(e)}", f"{exc(e)}: {e}", case)
+        return
+    if b1 != b2:
+        ctx.nontrivial(("BL2", b1, b2, via))
+    ctx.outcome(("BL2", tok1, got))
+    if got != want:
+        ctx.violation(
+            f"bond-typing-after-edit|{via}|" + ("token-of-the-state-at-the-first-call" if got == tok1 else "token-differs-from-a-fresh-bond-of-the-same-type"),
+            f"bond typed as {tok1!r} ({BondType(b1).name}), edited in place ({via}) to {BondType(b.btype).name}: get_mol2_type() gives {got!r}, a fresh bond gives {want!r}",
+            case,
+        )
+
+
+# ---- small scope: write, edit in place, write again -------------------------------------------------------
+def we_edits(n_atoms, n_bonds, k):
+    """the edit alphabet (harness model: how the reference spec changes)"""
+    ed = []
+    for i in range(n_atoms):
+        ed += [{"f": "element", "i": i, "v": 9}, {"f": "element", "i": i, "v": 15}]
+        ed += [{"f": "atype", "i": i, "v": int(AtomType.sp2)}, {"f": "atype", "i": i, "v": int(AtomType.Dummy)}]
+        ed += [{"f": "geom", "i": i, "v": int(AtomGeom.R3_Planar)}]
+        ed += [{"f": "label", "i": i, "v": "Zz9"}, {"f": "label", "i": i, "v": None}]
+        ed += [{"f": "coordinate", "i": i, "c": i % 3, "fr": (i % k), "v": 7.25 + i}]
+        ed += [{"f": "charge", "i": i, "fr": (i % k), "v": 0.75 - i}]
+    for j in range(n_bonds):
+        ed += [{"f": "bond-type", "j": j, "v": BT["Triple"]}, {"f": "bond-type", "j": j, "v": BT["Amide"]}, {"f": "bond-type(set_mol2_type)", "j": j, "v": "ar"}]
+    ed += [{"f": "name", "v": "renamed one"}]
+    return ed
+
+
+BOND_OF_TOKEN = {v: k for k, v in {"Single": "1", "Double": "2", "Triple": "3", "Aromatic": "ar", "Amide": "am", "Dummy": "du", "Unknown": "un", "NotConnected": "nc"}.items()}
+
+
+def apply_edit(obj, spec, e):
+    """edit the OBJECT in place and return the updated reference spec (the harness's own model of the edit)"""
+    sp = normspec(spec)
+    kind = spec["kind"]
+    f = e["f"]
+    if f == "element":
+        obj.atoms[e["i"]].element = Element(e["v"])
+        sp["atoms"][e["i"]][0] = e["v"]
+    elif f == "atype":
+        obj.atoms[e["i"]].atype = AtomType(e["v"])
+        sp["atoms"][e["i"]][2] = e["v"]
+    elif f == "geom":
+        obj.atoms[e["i"]].geom = AtomGeom(e["v"])
+        sp["atoms"][e["i"]][3] = e["v"]
+    elif f == "label":
+        obj.atoms[e["i"]].label = e["v"]
+        sp["atoms"][e["i"]][1] = e["v"]
+    elif f == "coordinate":
+        if kind == "E":
+            obj.coords[e["fr"], e["i"], e["c"]] = e["v"]
+        else:
+            obj.coords[e["i"], e["c"]] = e["v"]
+        sp["frames"][e["fr"] if kind == "E" else 0]["xyz"][e["i"]][e["c"]] = e["v"]
+    elif f == "charge":
+        if kind == "E":
+            obj.atomic_charges[e["fr"], e["i"]] = e["v"]
+        elif kind == "M":
+            obj.atomic_charges[e["i"]] = e["v"]
+        if kind != "S":
+            sp["frames"][e["fr"] if kind == "E" else 0]["q"][e["i"]] = e["v"]
+    elif f == "bond-type":
+        obj.bonds[e["j"]].btype = BondType(e["v"])
+        sp["bonds"][e["j"]][2] = e["v"]
+    elif f == "bond-type(set_mol2_type)":
+        obj.bonds[e["j"]].set_mol2_type(e["v"])
+        sp["bonds"][e["j"]][2] = BT[BOND_OF_TOKEN[e["v"]]]
+    elif f == "name":
+        obj.name = e["v"]
+        sp["name"] = e["v"]
+    else:
+        raise HarnessError(f"unknown edit {e!r}")
+    return sp
+
+
+def bond_type_column(text):
+    out, on = [], False
+    for line in text.split("\n"):
+        if line.startswith("@<TRIPOS>"):
+            on = line.strip() == "@<TRIPOS>BOND"
+            continue
+        if on and line.strip():
+            f = line.split()
+            out.append(f[3] if len(f) > 3 else None)
+    return out
+
+
+def check_write_edit_write(ctx, spec, first, edits):
+    """first: how the object is 'typed once' (a writer entry, or 'get_mol2_type' = direct calls on atoms and bonds)"""
+    tmp = Path(ctx.scratch) / f"c07-{os.getpid()}.mol2"
+    tmpw = Path(ctx.scratch) / f"c07-{os.getpid()}-w.mol2"
+    case = {"layer": "WE", "spec": spec, "first": first, "edits": edits}
+    kn = KINDNAME[spec["kind"]]
+    tag = "after[write+edit-in-place(" + "+".join(sorted({e["f"] for e in edits})) + ")]|"
+    ctx.count(evaluations=1, states=1, traces=1)
+    ctx.nontrivial(("WE", digest(case)))
+    try:
+        obj, espec = build(spec)
+        ctx.count(transitions=1)
+        try:
+            if first == "get_mol2_type":
+                for a in obj.atoms:
+                    a.get_mol2_type()
+                for b in obj.bonds:
+                    b.get_mol2_type()
+            else:
+                do_write(obj, first, tmpw)
+        except Exception:
+            pass  # a failing first write is reported by the S layers
+        for e in edits:
+            try:
+                espec = apply_edit(obj, espec, e)
+            except HarnessError:
+                raise
+            except Exception as ex:
+                raise UnderTestDeviation(f"edit-raised-{exc(ex)}", f"editing {e['f']} in place raised {exc(ex)}: {ex}")
+    except UnderTestDeviation as e:
+        ctx.violation(f"setup|{kn}|{tag}{e.symptom}", e.detail, case)
+        return
+    cells, detail, texts, wfail = _evaluate(ctx, obj, espec, tmp, tmpw)
+    # the type columns of the second text against fresh atoms / bonds holding the CURRENT fields
+    try:
+        want_a = [fresh_token(z, t, g) for z, _l, t, g in espec["atoms"]]
+        want_b = [Bond(Atom("C"), Atom("N"), btype=BondType(bt)).get_mol2_type() for _i, _j, bt in espec["bonds"]]
+    except Exception:
+        want_a = want_b = None
+    k = len(espec["frames"])
+    if want_a is not None:
+        for text, ws in texts.items():
+            ca, cb = atom_type_column(text), bond_type_column(text)
+            if ca != want_a * k:
+                bad = next(((x, y) for x, y in zip(ca, want_a * k) if x != y), (None, None))
+                s_ = f"atom-type-column-does-not-follow-the-current-state[{tokclass(bad[0] or '?')}-instead-of-{tokclass(bad[1] or '?')}]" if len(ca) == len(want_a) * k else "atom-type-column-has-another-length"
+                for w in ws:
+                    cells.setdefault(s_, set()).add((w, "-"))
+                detail.setdefault(s_, f"type column {ca} written, the current state types as {want_a * k}")
+            if cb != want_b * k:
+                bad = next(((x, y) for x, y in zip(cb, want_b * k) if x != y), (None, None))
+                s_ = f"bond-type-column-does-not-follow-the-current-state[{bad[0]}-instead-of-{bad[1]}]" if len(cb) == len(want_b) * k else "bond-type-column-has-another-length"
+                for w in ws:
+                    cells.setdefault(s_, set()).add((w, "-"))
+                detail.setdefault(s_, f"type column {cb} written, the current state types as {want_b * k}")
+    base_syms: set = set()
+    if cells or wfail:
+        try:
+            obj0, espec0 = build(espec)
+            c0, _d, _t, w0 = _evaluate(ctx, obj0, espec0, tmp, tmpw)
+            base_syms = set(c0) | {"write:" + x for x in w0}
+        except UnderTestDeviation:
+            pass
+    ctx.outcome(("WE", digest(sorted(texts)), tuple(sorted(cells)), tuple(sorted(wfail))))
+    wok = sorted(w for ws in texts.values() for w in ws)
+    for sym in sorted(wfail):
+        ws = [w for w, _ in wfail[sym]]
+        t = "" if ("write:" + sym) in base_syms else tag
+        ctx.violation(f"write|{kn}|{t}{sym}|w={_desc(ws, WRITERS)}", f"{kn}.{ws[0]} {t}: {wfail[sym][0][1]}", case)
+    for sym in sorted(cells):
+        t = "" if sym in base_syms else tag
+        cs = cells[sym]
+        ws = sorted({w for w, _ in cs})
+        rs = sorted({r for _, r in cs})
+        if rs == ["-"]:
+            ctx.violation(f"write|{kn}|{t}{sym}|w={_desc(ws, wok)}", f"{kn}.{ws[0]} after {first} and in-place edits {[e['f'] for e in edits]}: {detail.get(sym)}", case, repro=repro_we(spec, first, edits))
+            continue
+        groups = [(ws, rs)] if cs == set(itertools.product(ws, rs)) else [([w], [r]) for w, r in sorted(cs)]
+        for gw, gr in groups:
+            ctx.violation(
+                f"rt|{kn}|{t}{sym}|w={_desc(gw, wok)}|r={_desc(gr, reader_universe(sym, k))}",
+                f"{kn} written ({first}), edited in place {[e['f'] for e in edits]}, written again by {gw[0]}, read by {gr[0]}: {detail.get((sym, gw[0], gr[0]), detail.get(sym, sym))}",
+                case,
+                repro=repro_we(spec, first, edits),
+            )
+    clear_bond_cache()
+
+
+def repro_we(spec, first, edits):
+    base = repro_spec(spec, "dumps_mol2" if spec["kind"] != "S" else "dump_mol2[StringIO]", KINDNAME[spec["kind"]] + ".loads_mol2").split("\n")
+    cut = next(i for i, l in enumerate(base) if l.startswith("text = ") or l.startswith("s = io.StringIO(); m.dump_mol2"))
+    lines = base[:cut] + ["s = io.StringIO(); m.dump_mol2(s); first = s.getvalue()  # first write"]
+    for e in edits:
+        f = e["f"]
+        if f in ("element", "atype", "geom", "label"):
+            val = {"element": f"Element({e['v']})", "atype": f"AtomType({e['v']})", "geom": f"AtomGeom({e['v']})", "label": repr(e["v"])}[f]
+            lines.append(f"m.atoms[{e['i']}].{f} = {val}")
+        elif f == "bond-type":
+            lines.append(f"m.bonds[{e['j']}].btype = BondType({e['v']})")
+        elif f == "bond-type(set_mol2_type)":
+            lines.append(f"m.bonds[{e['j']}].set_mol2_type({e['v']!r})")
+        elif f == "name":
+            lines.append(f"m.name = {e['v']!r}")
+        elif f == "coordinate":
+            lines.append(f"m.coords[{(str(e['fr']) + ', ') if spec['kind'] == 'E' else ''}{e['i']}, {e['c']}] = {e['v']}")
+        elif f == "charge" and spec["kind"] != "S":
+            lines.append(f"m.atomic_charges[{(str(e['fr']) + ', ') if spec['kind'] == 'E' else ''}{e['i']}] = {e['v']}")
+    lines += ["s = io.StringIO(); m.dump_mol2(s); second = s.getvalue()", "print(first); print(second)  # the second text must describe the edited object"]
+    return "\n".join(lines)
+
+
+def gen_WE(seed, thorough):
+    tr = triples(seed + 5, [v for v in CVALS if v == v])
+    atoms = [(6, "C1", REG, UNKG), (7, None, int(AtomType.Unknown), UNKG), (16, "S3", REG, UNKG)]
+    bonds = [(0, 1, BT["Single"]), (2, 1, BT["Double"]), (0, 2, BT["Aromatic"])]
+    xyz = [tr[0], tr[2], tr[3]]
+    q = [0.25, -0.5, 0.125]
+    firsts = rot(WRITERS + ["get_mol2_type"], seed)
+    for kind in ("M", "S", "E"):
+        frames = [{"xyz": xyz, "q": q}]
+        if kind == "E":
+            frames.append({"xyz": xyz[1:] + xyz[:1], "q": q[1:] + q[:1]})
+        spec = mkspec(kind, "we", atoms, frames, bonds)
+        eds = we_edits(3, 3, len(frames))
+        for first in firsts:
+            for e in eds:
+                yield spec, first, [e]
+        # two edits in a row (thorough: all ordered pairs; quick: every edit followed by an edit of another field of atom 0 / bond 0)
+        seconds = eds if thorough else [e for e in eds if e.get("i", e.get("j", 0)) == 0]
+        for a in eds:
+            for b in seconds:
+                if a["f"] != b["f"]:
+                    yield spec, firsts[0], [a, b]
+
+
+# =================================================================================================
 # partitioned drivers
 # =================================================================================================
 def _part_inner(ctx, part):
@@ -1460,10 +1757,28 @@ def _part_inner(ctx, part):
                 check_tb(ctx, "M", [reps[a], reps[b]], seed, bonded=True)
                 ctx.add_note("cases_TB2")
         return
+    if layer == "TA2":
+        reps = rot(class_representatives(), seed)
+        pairs = [(a, b, via) for a in reps for b in reps for via in ("fields", "set_mol2_type")]
+        for idx in range(i, len(pairs), nparts):
+            check_retype(ctx, *pairs[idx])
+            ctx.add_note("cases_TA2")
+        return
+    if layer == "WE":
+        for idx, (spec, first, edits) in enumerate(gen_WE(seed, thorough)):
+            if idx % nparts != i:
+                continue
+            check_write_edit_write(ctx, spec, first, edits)
+            ctx.add_note("cases_WE")
+        return
     if layer == "BL":
         if i == 0:
             for bt in BondType:
                 check_bond_local(ctx, int(bt))
+            for b1 in BondType:
+                for b2 in BondType:
+                    for via in ("btype", "set_mol2_type"):
+                        check_bond_retype(ctx, int(b1), int(b2), via)
         toks = rot(EMITTABLE_BOND_TOKENS, seed)
         seqs = [s for d in (1, 2, 3) for s in itertools.product(toks, repeat=d)]
         for idx in range(i, len(seqs), nparts):
@@ -1523,6 +1838,10 @@ def run(ctx):
         "fixed point = the text of the first write is reproduced byte for byte by writing what the same class read from it",
         "loads_mol2/load_mol2 of a multi-molecule text return the first molecule (documented behaviour); loads_all/ConformerEnsemble return all, in order",
         "an ensemble with 0 conformers has no mol2 text and is out of scope",
+        "write - edit in place - write (layers TA2, BL bond pairs, WE): whatever a writer derives from an object follows the object's CURRENT state: "
+        "get_mol2_type of an edited atom/bond equals that of a fresh atom/bond with the same fields; a structure written once, edited in place (element, atype, "
+        "geom, label, bond type, coordinate, charge, name) and written again reads back as the edited structure, and its type columns are those of fresh atoms/bonds "
+        "with the current fields",
         "layer HW (history before writing): creating other containers (Promolecule/Connectivity/Structure/Molecule over a list of the structure's own Atom "
         "objects, copy_atoms=False), a Substructure view or an ensemble + Conformer view, alive or dropped, does not change the structure: its mol2 text "
         "must still read back as the structure (its own atom order is the reference); likewise when the written object is such a second container",
@@ -1554,7 +1873,7 @@ def run(ctx):
     ctx.note("property_text_says_triples", "119 x 22 x 17; the tree under test has %d x %d x %d" % (nE, nT, nG))
     np_ = 16 if thorough else 8
     parts = []
-    for layer in ("TA", "TB", "BL", "S0", "TC", "S4", "SH", "HW", "S2", "S1", "S3"):
+    for layer in ("TA", "TA2", "TB", "BL", "S0", "TC", "S4", "SH", "WE", "HW", "S2", "S1", "S3"):
         n = 1 if layer in ("S0",) else np_ * (4 if layer in ("S1", "S3", "S2") or (thorough and layer == "HW") else 1)
         parts += [(layer, i, n) for i in range(n)]
     if thorough:
@@ -1589,6 +1908,12 @@ def replay(ctx, case):
         check_triple(ctx, tuple(int(x) for x in case["triple"]))
     elif layer == "TB":
         check_tb(ctx, case["kind"], [tuple(int(x) for x in t) for t in case["triples"]], ctx.seed, bonded=bool(case.get("bonded")))
+    elif layer == "TA2":
+        check_retype(ctx, tuple(int(x) for x in case["t1"]), tuple(int(x) for x in case["t2"]), case["via"])
+    elif layer == "BL2":
+        check_bond_retype(ctx, int(case["b1"]), int(case["b2"]), case["via"])
+    elif layer == "WE":
+        check_write_edit_write(ctx, normspec(case["spec"]), case["first"], case["edits"])
     elif layer == "BL":
         check_bond_local(ctx, int(case["btype"]))
     elif layer == "BS":
